@@ -314,6 +314,7 @@ type Frame struct {
 	paramClos map[*ssa.Parameter]*closureRef
 	fmtSlice  ssa.Value
 	inResolve bool
+	resolveState *State
 }
 
 type closureRef struct {
